@@ -211,7 +211,9 @@ def _sites(rng, kind, n, box):
 
 def voronoi(rng, n=30, kind="uniform", box=10.0, margin=0.1, min_ridge_frac=0.01, tries=50):
     """bounded Voronoi tissue: the largest ridge-connected set of bounded regions that lie inside the box."""
-    for _ in range(tries):
+    for attempt in range(tries):
+        if attempt and attempt % 10 == 0:
+            n += 2          # very small site sets rarely have three bounded regions inside the box
         pts = _sites(rng, kind, n, box)
         if len(pts) < 5:
             continue
